@@ -122,6 +122,9 @@ type Env struct {
 
 var gT *testing.T // the outer test, needed by synctest.Test
 
+// gStats is the shard's statistics, for measures taken deep inside the drivers (abstract states).
+var gStats *Stats
+
 // leakedWorlds counts worlds at whose end a goroutine of the code under test was still blocked.
 var leakedWorlds int64
 
